@@ -273,6 +273,10 @@ def build_ops():
         arr("shared_rank", SH, [a, b], Z(2), {"inst": True, "dtin": True, "shape": [2]})
         arr("shared_notarray", SH, [a, b], "str", {"inst": False, "dtin": True, "shape": []})
         arr("shared_ok", SH, [a, b], Z(2, 3), {"inst": True, "dtin": True, "shape": [2, 3]})
+        # an annotation that merely WRAPS the shared one (no further axes, no narrowing) is an annotation of its own
+        WR = Shaped[SH, ""]
+        arr("wrapped_shared_rank", WR, [a, b], Z(2), {"inst": True, "dtin": True, "shape": [2]})
+        arr("wrapped_shared_notarray", WR, [a, b], "str", {"inst": False, "dtin": True, "shape": []})
         import jax
         UN = Float[typing_Union[np.ndarray, jax.Array], "a b"]       # built afresh for every probe battery
         arr("rebuilt_union_rank", UN, [a, b], Z(2), {"inst": True, "dtin": True, "shape": [2]})
